@@ -189,7 +189,8 @@ def Ite(c, a, b):
     if isinstance(a, SBV) or isinstance(b, SBV):
         dt = a.dtype if isinstance(a, SBV) else b.dtype
         a, b = cast(a, dt), cast(b, dt)
-        return SBV(z3.If(cz, a.z, b.z), dt)
+        iv = z3.If(cz, a.ival, b.ival) if (a.ival is not None and b.ival is not None) else None
+        return SBV(z3.If(cz, a.z, b.z), dt, iv)
     if isinstance(a, (SBool, bool, _rnp.bool_)) and isinstance(b, (SBool, bool, _rnp.bool_)):
         return mk_bool(z3.If(cz, zb(a), zb(b)))
     return SInt(z3.If(cz, zi(a), zi(b)))
@@ -405,13 +406,13 @@ class SBV:
 
 def bvval(v, dt):
     dt = _rnp.dtype(dt)
-    return SBV(z3.BitVecVal(int(v), _w(dt)), dt)
+    return SBV(z3.BitVecVal(int(v), _w(dt)), dt, z3.IntVal(int(v)) if _rnp.iinfo(dt).min <= int(v) <= _rnp.iinfo(dt).max else None)
 
 def cast(s, dt):
     """numpy astype semantics (C-style wrap for integers; float->int not supported symbolically)"""
     dt = _rnp.dtype(dt)
     if dt.kind == 'f':
-        f = to_float(s); return SFloat(f.v, dt, f.nan, f.pinf, f.ninf)
+        f = to_float(s); return SFloat(f.v, dt, f.nan, f.pinf, f.ninf, f.lossy)
     if dt.kind == 'b':
         if isinstance(s, (SBool, bool, _rnp.bool_)): return s
         if isinstance(s, SBV): return mk_bool(s.z != 0)
@@ -562,9 +563,10 @@ def _cmp(a, b, op):
 # --------------------------------------------------------------------------- floats as reals with IEEE special values
 class SFloat:
     """(value, nan, +inf, -inf): the value is meaningful only when no flag is set.  Assumption A1: no rounding."""
-    __slots__ = ('v', 'dtype', 'nan', 'pinf', 'ninf')
-    def __init__(self, v, dtype='float64', nan=False, pinf=False, ninf=False):
+    __slots__ = ('v', 'dtype', 'nan', 'pinf', 'ninf', 'lossy')
+    def __init__(self, v, dtype='float64', nan=False, pinf=False, ninf=False, lossy=None):
         self.v = v; self.dtype = _rnp.dtype(dtype); self.nan = nan; self.pinf = pinf; self.ninf = ninf
+        self.lossy = lossy          # narrowest float width (bits) in which an inexact operation contributed to this value (None: none yet)
     @property
     def special(self): return not (self.nan is False and self.pinf is False and self.ninf is False)
     def finite(self): return Not(Or(*[mk_bool(f) if not isinstance(f, bool) else f for f in (self.nan, self.pinf, self.ninf)]))
@@ -620,6 +622,7 @@ def realval(x):
         fr = Fraction(x); return z3.RealVal(str(fr))
     return z3.RealVal(int(x))
 
+NARROW_FLOWS = []       # (value width, target width): an inexact operation done in a narrower float type flowed into a wider float array
 INTEGRAL_REALS = {}     # ast id of ToInt(v) -> v, for sums of integers kept as reals by the sum normaliser (v is integral by construction)
 def int_from_real_sum(v, dt):
     """machine integer holding the integral real v (a sum of integers); exact as long as the no-overflow side condition holds"""
@@ -658,8 +661,15 @@ def _fdtype(a, b):
     if db is None: return da if da.kind == 'f' else _rnp.dtype('float64')
     return _rnp.result_type(da, db)
 
+def _lossy_of(x): return x.lossy if isinstance(x, SFloat) else None
 def _float_arith(a, b, op):
     if hasattr(a, 'st') or hasattr(b, 'st'): return NotImplemented
+    r = _float_arith0(a, b, op)
+    if isinstance(r, SFloat):
+        ls = [v for v in (_lossy_of(a), _lossy_of(b), 8 * r.dtype.itemsize) if v is not None]
+        r.lossy = min(ls)
+    return r
+def _float_arith0(a, b, op):
     dt = _fdtype(a, b)
     if dt.kind != 'f': dt = _rnp.dtype('float64')
     if op == '**':
